@@ -271,11 +271,18 @@ pub struct CapW {
     /// refuse output beyond this many bytes (a runaway padding loop ends with an error instead of filling memory)
     pub limit: Option<usize>,
     pub written: usize,
+    /// the previous write call was answered with `ErrorKind::Interrupted` (never twice in a row)
+    pub just_interrupted: bool,
+    pub interrupts: u64,
 }
+
+/// Script value: this write call is interrupted (EINTR) before anything is written; callers such as `write_all`
+/// and `write_fmt` retry, and nothing may be lost, duplicated or charged to a width budget because of it.
+pub const SCRIPT_INTERRUPT: u8 = 255;
 
 impl CapW {
     pub fn new(script: Vec<u8>) -> CapW {
-        CapW { events: vec![], script, pos: 0, cut_inside_char: false, write_calls: 0, limit: None, written: 0 }
+        CapW { events: vec![], script, pos: 0, cut_inside_char: false, write_calls: 0, limit: None, written: 0, just_interrupted: false, interrupts: 0 }
     }
     pub fn bytes(&self) -> Vec<u8> {
         let mut v = vec![];
@@ -305,14 +312,21 @@ impl io::Write for CapW {
                 return Err(io::Error::new(io::ErrorKind::Other, "verif: output limit exceeded"));
             }
         }
-        self.written += buf.len();
         let n = if self.script.is_empty() {
             buf.len()
         } else {
-            let k = self.script[self.pos % self.script.len()] as usize;
+            let k = self.script[self.pos % self.script.len()];
             self.pos += 1;
+            if k == SCRIPT_INTERRUPT && !self.just_interrupted {
+                self.just_interrupted = true;
+                self.interrupts += 1;
+                return Err(io::Error::new(io::ErrorKind::Interrupted, "verif: EINTR"));
+            }
+            let k = if k == SCRIPT_INTERRUPT { 0 } else { k as usize };
             if k == 0 { buf.len() } else { k.min(buf.len()) }
         };
+        self.just_interrupted = false;
+        self.written += n;
         if n < buf.len() && (buf[n] & 0xC0) == 0x80 {
             self.cut_inside_char = true;
         }
@@ -405,6 +419,102 @@ pub fn render(pat: &[Node], rec: &Rec, env: &Env) -> String {
         }
     }
     out
+}
+
+/// What a pattern sends to the writer, in order: text and style requests. A highlight group of a record whose
+/// level has a colour asks for that style before its content and for the default style after it; style requests
+/// have no width, so a width spec neither counts nor drops them, and padding goes before (right alignment) or after
+/// (left alignment) everything the formatter produced.
+#[derive(Debug, Clone, PartialEq)]
+pub enum Item {
+    Text(String),
+    StyleOn,
+    StyleOff,
+}
+
+pub fn render_items(pat: &[Node], rec: &Rec, env: &Env) -> Vec<Item> {
+    let mut out: Vec<Item> = vec![];
+    for n in pat {
+        match n {
+            Node::Lit { text, .. } => out.push(Item::Text(text.clone())),
+            Node::Fmt { kind, spec, .. } => {
+                let inner: Vec<Item> = match kind {
+                    Kind::Group(c) => render_items(c, rec, env),
+                    Kind::Highlight(c) => {
+                        let mut v = vec![];
+                        let coloured = rec.level() != log::Level::Debug;
+                        if coloured {
+                            v.push(Item::StyleOn);
+                        }
+                        v.extend(render_items(c, rec, env));
+                        if coloured {
+                            v.push(Item::StyleOff);
+                        }
+                        v
+                    }
+                    Kind::Debug(c) => if env.debug_build { render_items(c, rec, env) } else { vec![] },
+                    Kind::Release(c) => if !env.debug_build { render_items(c, rec, env) } else { vec![] },
+                    _ => vec![Item::Text(render(&[Node::Fmt { kind: kind.clone(), long: false, spec: None }], rec, env))],
+                };
+                out.extend(apply_spec_items(inner, spec));
+            }
+        }
+    }
+    merge_items(out)
+}
+
+fn merge_items(v: Vec<Item>) -> Vec<Item> {
+    let mut out: Vec<Item> = vec![];
+    for it in v {
+        match (out.last_mut(), &it) {
+            (_, Item::Text(t)) if t.is_empty() => {}
+            (Some(Item::Text(a)), Item::Text(b)) => a.push_str(b),
+            _ => out.push(it),
+        }
+    }
+    out
+}
+
+fn apply_spec_items(items: Vec<Item>, spec: &Option<Spec>) -> Vec<Item> {
+    let Some(sp) = spec else { return items };
+    let mut budget = sp.max.unwrap_or(usize::MAX);
+    let mut kept = 0usize;
+    let mut out = vec![];
+    for it in items {
+        match it {
+            Item::Text(t) => {
+                let cut: String = t.chars().take(budget).collect();
+                let n = cut.chars().count();
+                budget -= n;
+                kept += n;
+                out.push(Item::Text(cut));
+            }
+            other => out.push(other),
+        }
+    }
+    if let Some(min) = sp.min {
+        if kept < min {
+            let pad: String = std::iter::repeat(sp.fill.unwrap_or(' ')).take(min - kept).collect();
+            match sp.align {
+                Some(Align::Right) => out.insert(0, Item::Text(pad)),
+                _ => out.push(Item::Text(pad)),
+            }
+        }
+    }
+    out
+}
+
+/// The capture writer's log in the same vocabulary.
+pub fn items_of_events(events: &[Ev]) -> Vec<Item> {
+    merge_items(
+        events
+            .iter()
+            .map(|e| match e {
+                Ev::Bytes(b) => Item::Text(String::from_utf8_lossy(b).to_string()),
+                Ev::Style(s) => if *s == Style::new() { Item::StyleOff } else { Item::StyleOn },
+            })
+            .collect(),
+    )
 }
 
 pub fn render_date(fmt: Option<&str>, zone: &Option<Zone>, secs: i64) -> String {
@@ -639,6 +749,7 @@ pub fn write_script() -> impl Strategy<Value = Vec<u8>> {
     prop_oneof![
         2 => Just(vec![]),
         3 => prop::collection::vec(0u8..=4, 1..=6),
+        2 => prop::collection::vec(prop_oneof![6 => 0u8..=4, 2 => Just(SCRIPT_INTERRUPT)], 1..=6),
         1 => Just(vec![1]),
     ]
 }
